@@ -547,5 +547,36 @@ def load_findings():
     return json.load(open(p)).get('findings', [])
 
 
+def typed_problem(evaluate, v, what):
+    """the result depends on the numbers in the vector, not on the type they are stored with: the vector rounded to
+    whole numbers (zeros replaced by one) is evaluated as a float array, as an integer array and as a list of Python
+    ints.  `evaluate(arg)` returns a tuple of floats / arrays.  Returns None or a description."""
+    import numpy as np
+    w = np.round(np.asarray(v, dtype=float))
+    w[w == 0] = 1.0
+    try:
+        ref = evaluate(w.copy())
+    except Exception:
+        return None          # float vectors are the business of the main comparison
+    for typ, arg in (('an integer array', w.astype(np.int64)), ('a list of Python ints', [int(x) for x in w])):
+        try:
+            got = evaluate(arg)
+        except Exception as e:
+            return '%s at %s of the whole numbers %s raises %s: %s (fine as a float array)' % (
+                what, typ, w.tolist(), type(e).__name__, e)
+        if not np.all(np.isfinite(np.asarray(ref[0], dtype=float))):
+            # no density there: only the fact is compared (sensitivities of a non-finite score mean nothing)
+            if np.all(np.isfinite(np.asarray(got[0], dtype=float))):
+                return '%s at the whole numbers %s is %s when they are passed as a float array and %s when they ' \
+                       'are passed as %s' % (what, w.tolist(), ref[0], got[0], typ)
+            continue
+        for a, b in zip(ref, got):
+            a, b = np.asarray(a, dtype=float), np.asarray(b, dtype=float)
+            if a.shape != b.shape or not np.allclose(a, b, rtol=1e-12, atol=1e-12, equal_nan=True):
+                return '%s at the whole numbers %s is %s when they are passed as a float array and %s when they ' \
+                       'are passed as %s' % (what, w.tolist(), a.tolist(), b.tolist(), typ)
+    return None
+
+
 def relerr(a, b):
     return abs(a - b) / (1.0 + abs(b))
